@@ -224,6 +224,7 @@ Lemma on_last_state_keeps_proof sy now p h fresh cts sy' acts s ps :
   exists s' ps', find_peer p (peers sy') = Some s' /\ get_ps s' = Some ps'.
 Proof.
   intros E F P. unfold on_last_state in E. rewrite F in E.
+  destruct (is_ok (vtd h)); cbn [negb] in E; [|inversion E; subst; eauto].
   destruct (v_pow_ok h); cbn [negb] in E; [|inversion E; subst; eauto].
   destruct (v_root_ok h); cbn [negb] in E; [|inversion E; subst; eauto].
   destruct fresh; cbn [negb] in E; [|inversion E; subst; eauto].
@@ -256,6 +257,7 @@ Lemma on_last_state_store sy now p h fresh cts sy' acts :
 Proof.
   intros E. unfold on_last_state in E.
   destruct (find_peer p (peers sy)) as [s|]; [|inversion E; subst; left; reflexivity].
+  destruct (is_ok (vtd h)); cbn [negb] in E; [|inversion E; subst; left; reflexivity].
   destruct (v_pow_ok h); cbn [negb] in E; [|inversion E; subst; left; reflexivity].
   destruct (v_root_ok h); cbn [negb] in E; [|inversion E; subst; left; reflexivity].
   destruct fresh; cbn [negb] in E; [|inversion E; subst; left; reflexivity].
@@ -296,6 +298,7 @@ Lemma on_last_state_child_truthful sy now p h fresh cts sy' acts :
 Proof.
   intros E Hne. unfold on_last_state in E.
   destruct (find_peer p (peers sy)) as [s|] eqn:F; [|inversion E; subst; contradiction].
+  destruct (is_ok (vtd h)); cbn [negb] in E; [|inversion E; subst; contradiction].
   destruct (v_pow_ok h) eqn:PW; cbn [negb] in E; [|inversion E; subst; contradiction].
   destruct (v_root_ok h) eqn:RT; cbn [negb] in E; [|inversion E; subst; contradiction].
   destruct fresh; cbn [negb] in E; [|inversion E; subst; contradiction].
